@@ -300,6 +300,55 @@ fn hex_case() -> BoxedStrategy<HexCase> {
     .boxed()
 }
 
+// ---------------------------------------------------------------- libFuzzer support
+
+pub fn fuzz_decode(data: &[u8]) -> Option<TextCase> {
+  let (sel, rest) = data.split_first()?;
+  let proto = Proto::ALL[(sel & 7) as usize];
+  let layer = Layer::ALL[((sel >> 3) % 3) as usize];
+  let footer = if sel & 0x40 != 0 { Some("foo".to_string()) } else { None };
+  Some(TextCase { proto, layer, token: String::from_utf8_lossy(rest).into_owned(), footer })
+}
+
+/// entry point of the fz_anytoken target (a panic of the library aborts the fuzzer: that is the oracle)
+pub fn fuzz_one(data: &[u8]) {
+  if let Some(c) = fuzz_decode(data) {
+    let km = keys::material(c.proto, &SEED);
+    if let Ok(lk) = km.lib() {
+      match c.layer {
+        Layer::Core => {
+          let _ = core_parse(&lk, &c.token, c.footer.as_deref(), None);
+        }
+        l => {
+          let mut p = new_parser(c.proto, l);
+          if let Some(f) = c.footer.as_deref() {
+            p.footer(f);
+          }
+          let _ = p.parse(&c.token, &lk);
+        }
+      }
+    }
+  }
+}
+
+pub fn fuzz_seeds() -> Vec<Vec<u8>> {
+  let mut out = vec![];
+  for (i, proto) in Proto::ALL.iter().enumerate() {
+    for (l, _) in Layer::ALL.iter().enumerate() {
+      for with_footer in [false, true] {
+        let sel = (i as u8) | ((l as u8) << 3) | if with_footer { 0x40 } else { 0 };
+        let mut v = vec![sel];
+        v.extend_from_slice(authentic(*proto, with_footer).as_bytes());
+        out.push(v);
+        let mut short = vec![sel];
+        short.extend_from_slice(format!("{}AAAA", proto.header()).as_bytes());
+        out.push(short);
+      }
+    }
+  }
+  out
+}
+
 // ----------------------------------------------------------------
 
 pub fn subs() -> Vec<Box<dyn DynSub>> {
@@ -315,6 +364,7 @@ pub fn run(ctx: &Ctx) -> EvidenceMeta {
     Box::new(|| ctx.enumerate(&AnyText, huge_cases(), false)),
     Box::new(|| ctx.prop(&AnyText, text_case(), ctx.n(20_000, 600_000))),
     Box::new(|| ctx.prop(&HexKeys, hex_case(), ctx.n(5_000, 200_000))),
+    Box::new(|| ctx.fuzz_inputs(&AnyText, "fz_anytoken", fuzz_decode)),
   ];
   run_jobs(jobs);
   EvidenceMeta {
